@@ -82,6 +82,95 @@ theorem sortBy_idem (l : List α) : sortBy key (sortBy key l) = sortBy key l := 
   apply List.mergeSort_of_pairwise
   exact List.pairwise_mergeSort (le := fun x y => decide (key x ≤ key y)) (le_trans' key) (le_total' key) l
 
+/-- sorting forgets the order of the input, when no two members share a key -/
+theorem sortBy_perm_eq (l₁ l₂ : List α) (hp : l₁.Perm l₂)
+    (hinj : ∀ x ∈ l₁, ∀ y ∈ l₁, key x = key y → x = y) : sortBy key l₁ = sortBy key l₂ := by
+  apply List.Perm.eq_of_pairwise (le := fun x y => key x ≤ key y)
+  · intro a b ha hb hab hba
+    have ha' : a ∈ l₁ := (mem_sortBy key l₁ a).mp ha
+    have hb' : b ∈ l₁ := hp.symm.subset ((mem_sortBy key l₂ b).mp hb)
+    exact hinj a ha' b hb' (String.le_antisymm hab hba)
+  · exact sortBy_sorted key l₁
+  · exact sortBy_sorted key l₂
+  · exact ((sortBy_perm key l₁).trans hp).trans (sortBy_perm key l₂).symm
+
 end sorting
+
+/-- `mapM` over a permutation: it fails or succeeds alike, and the results are permutations -/
+theorem mapM_perm {α β} (f : α → Option β) {l₁ l₂ : List α} (hp : l₁.Perm l₂) :
+    (l₁.mapM f = none ↔ l₂.mapM f = none) ∧ ∀ r₁ r₂, l₁.mapM f = some r₁ → l₂.mapM f = some r₂ → r₁.Perm r₂ := by
+  induction hp with
+  | nil => exact ⟨Iff.rfl, fun r₁ r₂ h1 h2 => by
+      simp only [List.mapM_nil, Option.pure_def, Option.some.injEq] at h1 h2
+      subst h1; subst h2; exact List.Perm.refl _⟩
+  | @cons x la lb _ ih =>
+    constructor
+    · simp only [List.mapM_cons]
+      cases hx : f x with
+      | none => simp
+      | some y =>
+        cases ha : la.mapM f with
+        | none =>
+          have := ih.1.mp ha
+          simp [this]
+        | some ra =>
+          cases hb : lb.mapM f with
+          | none =>
+            have := ih.1.mpr hb
+            rw [ha] at this
+            cases this
+          | some rb => simp
+    · intro r₁ r₂ h1 h2
+      rw [List.mapM_cons] at h1 h2
+      cases hx : f x with
+      | none => rw [hx] at h1; cases h1
+      | some y =>
+        rw [hx] at h1 h2
+        cases ha : la.mapM f with
+        | none => rw [ha] at h1; cases h1
+        | some ra =>
+          cases hb : lb.mapM f with
+          | none => rw [hb] at h2; cases h2
+          | some rb =>
+            rw [ha] at h1
+            rw [hb] at h2
+            have e1 : r₁ = y :: ra := by
+              have : some (y :: ra) = some r₁ := h1
+              exact (Option.some.inj this).symm
+            have e2 : r₂ = y :: rb := by
+              have : some (y :: rb) = some r₂ := h2
+              exact (Option.some.inj this).symm
+            subst e1; subst e2
+            exact (ih.2 ra rb ha hb).cons y
+  | swap x y l =>
+    constructor
+    · simp only [List.mapM_cons]
+      cases hx : f x <;> cases hy : f y <;> cases hl : l.mapM f <;> simp
+    · intro r₁ r₂ h1 h2
+      simp only [List.mapM_cons] at h1 h2
+      cases hx : f x with
+      | none => rw [hx] at h1; simp at h1
+      | some a =>
+        cases hy : f y with
+        | none => rw [hy] at h1; simp at h1
+        | some b =>
+          cases hl : l.mapM f with
+          | none => rw [hx, hy, hl] at h1; simp at h1
+          | some r =>
+            rw [hx, hy, hl] at h1 h2
+            simp only [Option.bind_eq_bind, Option.bind_some, Option.pure_def, Option.some.injEq] at h1 h2
+            subst h1; subst h2
+            exact List.Perm.swap a b r
+  | @trans la lb lc _ _ ih1 ih2 =>
+    constructor
+    · exact ih1.1.trans ih2.1
+    · intro r₁ r₃ h1 h3
+      cases hb : lb.mapM f with
+      | none =>
+        have := ih1.1.mpr hb
+        rw [h1] at this
+        cases this
+      | some r₂ => exact (ih1.2 r₁ r₂ h1 hb).trans (ih2.2 r₂ r₃ hb h3)
+
 
 end EdxmlProps.XmlTree
